@@ -45,7 +45,7 @@ def run(ctx):
     if not ok:
         ctx.broken.append("harness does not build against /repo: " + out[-800:])
         return C.finish(ctx, "proof", {"obligations": 0, "discharged": 0, "checker_cmd": "cargo build", "trusted_base": []}, [])
-    cov = C.proof_step(ctx, "Props/C17.v", ["Proof/LpRoundtrip.v"])
+    cov = C.proof_step(ctx, "Props/C17.v", ["Proof/LpRoundtrip.v", "Proof/LpWhole.v"])
     ok, out = C.coq_make(["Tie/TieC17.vo"])
     if not ok:
         ctx.broken.append("model/tie does not compile: " + out[-600:])
@@ -65,6 +65,9 @@ def run(ctx):
     fails, errors = ([], [])
     if ok:
         fails, errors = C.eval_cases(ctx, "tie", IMP, "c17", lines, fn="c17_failures", shard=250)
+        unmet, e2 = C.eval_cases(ctx, "tiepre", IMP, "c17", lines, fn="c17_premise_unmet", shard=250)
+        errors += e2
+        cov["roundtrip_theorem_premise_unmet_on_tied_models"] = len(unmet)
     if errors:
         ctx.broken.append("correspondence evaluation failed in Coq: %s" % errors[0][1][-400:])
     if fails:
@@ -84,4 +87,5 @@ def run(ctx):
         "oracle_failures_unlisted": new,
         "correspondence_mismatches": len(fails),
     })
-    return C.finish(ctx, "proof", cov, ["theorem hypothesis: finite coefficients and variable/row names that are neither numbers, operators nor section keywords (lp_names_ok)"])
+    return C.finish(ctx, "proof", cov, ["theorem hypothesis lp_okb: variable names that are neither relation, sign nor section words, Real / NonNegativeReal bounds that are not NaN; evaluated on every tied model (count in the coverage); "
+                                        "the tokeniser (whitespace split, decimal text <-> f64) is outside the theorem"])
